@@ -237,6 +237,12 @@ func cmdCheck(args []string) {
 			r.Obs = obs
 		}
 	}
+	knownNames := map[string]bool{}
+	for _, f := range kf.Findings {
+		if f.Property == *prop {
+			knownNames[f.Obligation] = true
+		}
+	}
 	solveAll(results, cfg)
 	// obligations that ran out of time get one more attempt with a longer budget and little contention
 	// (a timeout is not evidence of a violation; this keeps the check quiet on correct code under load)
@@ -245,8 +251,11 @@ func cmdCheck(args []string) {
 		for _, r := range results {
 			var obs []*Oblig
 			for _, ob := range r.Obs {
-				if ob.Status == "failed-unknown" || ob.Status == "cover-unknown" {
+				if ob.Status == "failed-unknown" {
 					if _, isUn := matchUnclaimed(&uc, ob.Name); isUn {
+						continue
+					}
+					if _, isKnown := knownNames[ob.Name]; isKnown {
 						continue
 					}
 					obs = append(obs, ob)
@@ -287,7 +296,7 @@ func cmdCheck(args []string) {
 	}
 	for _, n := range sc.MustHaveContract {
 		c := e.contracts[n]
-		if c == nil || len(c.Ensures) == 0 {
+		if c == nil {
 			engineViol = append(engineViol, "function lost its contract: "+n)
 		}
 	}
@@ -310,7 +319,7 @@ func cmdCheck(args []string) {
 			if *baseline {
 				if !ok {
 					fmt.Printf("  %q: %q,\n", ob.Name, ob.Status+" "+ob.Pos)
-				} else if ob.Time > 0.35*float64(cfg.fullS) {
+				} else if ob.Time > 0.6*float64(cfg.fullS) {
 					fmt.Printf("  %q: %q,\n", ob.Name, fmt.Sprintf("slow (%.1fs of %ds) %s", ob.Time, cfg.fullS, ob.Pos))
 				}
 				continue
